@@ -9,13 +9,13 @@ Definition case := LC.case.
 
 (* the k-th mutating operation was reached (so it failed): the command must not report success.
    Conversely a reported success means the fault was never hit, i.e. every step happened. *)
-Definition step_spec (c : cfgT) (w : wobs) (s : step) : bool :=
-  match e_fault (s_env s) with
-  | FailAt k => negb (k <? length (s_oplog s))%nat || negb (rclass_beq (s_res s) ROk)
+Definition step_spec (c : cfgT) (w : wobs) (v : sview) : bool :=
+  match e_fault (v_env v) with
+  | FailAt k => negb (k <? length (v_log v))%nat || negb (rclass_beq (v_res v) ROk)
   | _ => true
   end.
 
-Definition spec (c : case) : bool := along (step_spec (c_cfg c)) (w0 c) (c_steps c).
+Definition spec (c : case) : bool := along_views (step_spec (c_cfg c)) (w0 c) (c_steps c).
 Definition wf := LC.wf.
 Definition kf (c : case) : N := 0.
 Definition verdict (c : case) : N := mkverdict (wf c) (LC.corr c) (spec c) (kf c).
